@@ -8,6 +8,10 @@ CORPUS = [
     "cg password 0 alice ssh ok POST bad 1 none auth:ok:ok:ok:past:future:10:alice none 1",
     "cg password 0 role1 x509 ok POST none 1 ipout:2 none none 1",
     "cg IPCertificate 0 role1 x509 ok POST none 1 ipin:2 none none 1",
+    # a loopback peer that names an inside address in X-Forwarded-For / X-Real-Ip is still outside the netblocks
+    "cg IPCertificate 0 role1 x509 ok POST none 1 ipxff:2 none none 1",
+    "cg IPCertificate 0 role1 ssh ok POST none 1 ipxri:2 none none 1",
+    "cg IPCertificate 0 role1 x509 ok POST none 1 ipinhdr:2 none none 1",
     "cg TOTP 0 alice ssh ok POST none 1 none auth:ok:ok:ok:past:future:2:alice none 1",
     "cg TOTP 0 alice ssh ok POST none 1 none auth:ok:ok:ok:past:future:66:alice none 1",
     "cg - 0 alice ssh ok POST none 1 none auth:ok:ok:ok:past:future:10:alice none 1",
